@@ -358,6 +358,21 @@ Proof.
   now rewrite (walk_eq o1 o2 V1 V2 r1 r2 E W).
 Qed.
 
+(* ------------------------------------------------------------------ histories *)
+Lemma hrun_changes_only : forall evs s, hrun evs s = hrun (changes_only evs) s.
+Proof.
+  induction evs as [|e r IH]; intro s; [reflexivity|].
+  destruct e as [o|f]; cbn [hrun changes_only filter]; apply IH.
+Qed.
+
+Lemma export_history_free_lemma : forall evs s o1 o2, valid o1 -> valid o2 ->
+  wf_net (hrun (changes_only evs) s) ->
+  outputs o1 (hrun evs s) = outputs o2 (hrun (changes_only evs) s).
+Proof.
+  intros evs s o1 o2 V1 V2 W. rewrite hrun_changes_only. unfold outputs, export_network_raw.
+  now rewrite (md_oracle_free_lemma o1 o2), (save_oracle_free_lemma o1 o2), (dbc_oracle_free_lemma o1 o2).
+Qed.
+
 (* ------------------------------------------------------------------ oracles used for execution *)
 Lemma o_id_valid : valid o_id.
 Proof. intros A s l. reflexivity. Qed.
